@@ -345,6 +345,9 @@ def gen_cases(ck):
             for v2 in hist:
                 if v1 == v2 or hlit(v1) is None or hlit(v2) is None:
                     continue
+                zeros = v1 in (F(0.0), F(-0.0)) and v2 in (F(0.0), F(-0.0))
+                if quick and not zeros and (hist.index(v1) + hist.index(v2) + len(p)) % 3:
+                    continue        # quick tier: a third of the pairs (the signed zeros always)
                 for route, pre, lit in (("lit", "$x = %s; $x = %s;\n" % (hlit(v1), hlit(v2)), "$x"),
                                         ("var", "$m = %s; $x = %s; $x = $m;\n" % (hlit(v2), hlit(v1)), "$x")):
                     cases.append({"k": "sfunc", "params": [p], "ret": "int", "retv": {"i": "7"}, "args": [v2], "lits": [lit], "expect": "7",
